@@ -157,14 +157,17 @@ def hashMon (mon : Mon) (id : Nat) (w : List String) (st : String) (a : KV) : Mo
   let h := nat (w.getD 4 "0") % 2 ^ 32
   let op := w.getD 2 ""
   if st != "ok" then bad mon s!"H{id} {op}: status {st}" else
-  let present := l.any (·.1 == k)
+  -- membership exactly as the real matcher sees it: `get(key)` walks only the bucket of the SUPPLIED hash code and compares keys
+  let nb := max (kvN a "buckets") 1
+  let sameNode : Nat × Nat → Bool := fun p => p.1 == k && p.2 % nb == h % nb
+  let present := l.any sameNode
   let (mon, l', chk) : Mon × List (Nat × Nat) × Option String := match op with
     | "insert" => (mon, l ++ [(k, h)], none)
     | "get" => (mon, l, if kv a "found" == some (if present then "1" else "0") then none else some s!"get {k}: found={kv a "found"} but textbook membership is {present}")
     | "remove" =>
       if kv a "found" != some (if present then "1" else "0") then (mon, l, some s!"remove {k}: found={kv a "found"} but textbook membership is {present}")
       else if present ∧ kv a "removed" != some "1" then (mon, l, some s!"remove {k}: node reachable by get but not by _remove")
-      else (mon, l.erase (k, h), none)
+      else (mon, l.eraseP sameNode, none)
     | "swap" => (swapOwners { mon with hashes := alSet mon.hashes k l } s!"H{id}" s!"H{k}", (alGet mon.hashes k).getD [], none)
     | "release" | "reset" => (mon, [], none)
     | "move_from" =>
